@@ -72,3 +72,40 @@ def para_words(r: random.Random, nsent: int, atoms: float = 0.0, haz: float = 0.
 
 PREFIXES = [("", ""), ("- ", "  "), ("1. ", "   "), ("10. ", "    "), ("> ", "> "), ("> > ", "> > "),
             ("> - ", ">   "), ("  - ", "    "), ("[^note]: ", "    "), ("- > ", "  > "), ("    ", "    ")]
+
+
+LONG_ATOM_KINDS = ["code", "code2", "link", "jtag", "jcomment", "jvar", "hcomment", "html"]
+LONG_ATOM_SIZES = [420, 1050, 2200, 4300]  # around bounds a "simplified" pattern might put on a construct (400, 999/1000, 2048, 4096)
+
+
+def long_atom(r: random.Random, kind: str | None = None, size: int | None = None) -> str:
+    """One atomic construct of several hundred to several thousand characters, holding spaces, words that look like block
+    markers (they would be escaped at a line start if the construct were wrapped like prose), quotes and dot runs (they
+    would be converted if the construct were taken for prose)."""
+    kind = kind or r.choice(LONG_ATOM_KINDS)
+    size = size or r.choice(LONG_ATOM_SIZES)
+    # (no word that ends a sentence: a sentence end inside a construct is the listed finding KF-C06-semantic-sentence-inside-unit)
+    inner_pool = ["tar", "-", "cvf", "1.", "step", "#", "x", ">", "out", "+", "it's", "\"q\"", "wait...so", "so", "2)", "alpha", "beta",
+                  "--flag", "value", "e.g.", "*", "~~~", "中文abc", "...and", "===", "|"]
+    ws: list[str] = []
+    n = 0
+    while n < size:
+        w = r.choice(inner_pool) if r.random() < 0.6 else rword(r, 2, 9)
+        ws.append(w)
+        n += len(w) + 1
+    body = " ".join(ws)
+    if kind == "code":
+        return "`" + body + "`"
+    if kind == "code2":
+        return "``" + ("k " + body).replace(" ", " a`b ", 1) + "``"
+    if kind == "link":
+        return "[" + body.replace("\"q\"", "q").replace("中文abc", "abc") + "](http://x.y/long)"  # (link text is prose: CJK/Latin spacing)
+    if kind == "jtag":
+        return "{% field label='" + body.replace("it's", "its") + "' %}"
+    if kind == "jcomment":
+        return "{# " + body + " #}"
+    if kind == "jvar":
+        return "{{ f(" + body.replace("\"q\"", "q") + ") }}"
+    if kind == "hcomment":
+        return "<!-- " + body.replace("--flag", "flag") + " -->"
+    return "<span title='" + body.replace("it's", "its").replace(">", "gt") + "'>"
